@@ -1,6 +1,7 @@
 (** Extraction of the executable C10 model and of the specification functions used as oracle.
     Only ExtrOcamlBasic is used: N/positive/nat stay the extracted inductive types. *)
 From Coq Require Import Extraction ExtrOcamlBasic.
-From XV Require Import C10.Spec10 C10.Model10 C10.Values10.
+From XV Require Import C10.Spec10 C10.Model10 C10.Values10 C10.Parse10.
 Extraction Language OCaml.
-Extraction "../ocaml/C10/gen_c10.ml" value_of nil_value model_doc spec_doc doc_nested compile_xpath matcher_selects sel_eval.
+Extraction "../ocaml/C10/gen_c10.ml" value_of nil_value model_doc spec_doc doc_nested compile_xpath matcher_selects sel_eval
+  xpath_of_string expect_xpath xpath_text selects_attr apath_wf ns_first.
